@@ -4,6 +4,7 @@ import WuffsVerif.Model.Choose
 import WuffsVerif.Model.JpegIdctRange
 import WuffsVerif.Model.HashSpec
 import WuffsVerif.Model.CoroFrame
+import WuffsVerif.Gen.C09_StdFields
 /-! Line driver for C09.  Ops:
   init <options> <selfNull 0|1> <sizeof_star_self> <wuffs_version> <prior> <obj…>
         prior = z | c:<hh> | r:<seed> | q:<seed> (r with zero magic bytes) | h:<hex>
@@ -20,6 +21,8 @@ import WuffsVerif.Model.CoroFrame
      -> v <decimal>
   coroframe <func> loads=<n> saves=<n> samevars=<b> guarded=<b> atsuspend=<b> pwrites=<b> scratch=<b>
      -> conforms | violates:<condition>      (shape of a generated coroutine function, Model/CoroFrame.lean)
+  partition wuffs_<pkg>__<struct> impl=<f,…|-> data=<f,…|->     (f_* members of the generated C struct)
+     -> ok | mismatch:… | unknown-struct      (against Gen/C09_StdFields.lean, the parsed AST)
 -/
 open WuffsVerif WuffsVerif.Line
 
@@ -213,6 +216,27 @@ def coroOp (l : List String) : String :=
     | _, _, _, _, _, _, _ => "bad-op"
   | _ => "bad-op"
 
+def kvStr (l : List String) (key : String) : Option String :=
+  (l.find? (fun s => s.startsWith (key ++ "="))).map (fun s => (s.drop (key.length + 1)).toString)
+
+open WuffsVerif.Gen.C09 in
+def partitionOp (l : List String) : String :=
+  match l with
+  | cname :: rest =>
+    match kvStr rest "impl", kvStr rest "data" with
+    | some impl, some data =>
+      match stdStructs.find? (fun s => "wuffs_" ++ s.pkg ++ "__" ++ s.name == cname) with
+      | none => "unknown-struct"
+      | some s =>
+        -- cgen emits no member for fields of type base.utility
+        let want (second : Bool) : List String :=
+          (s.fields.filter (fun f => f.second == second && f.kind != .utility)).map (·.name)
+        if want false != commaList impl then "mismatch:private_impl"
+        else if want true != commaList data then "mismatch:private_data"
+        else "ok"
+    | _, _ => "bad-op"
+  | _ => "bad-op"
+
 def step (l : List String) : String :=
   match l with
   | "init" :: rest => initOp rest
@@ -223,6 +247,7 @@ def step (l : List String) : String :=
   | "crc32" :: rest => hashOp HashSpec.crc32 rest
   | "crc64" :: rest => hashOp HashSpec.crc64 rest
   | "coroframe" :: rest => coroOp rest
+  | "partition" :: rest => partitionOp rest
   | "adler32x" :: rest => hashSegOp HashSpec.adler32 rest
   | "crc32x" :: rest => hashSegOp HashSpec.crc32 rest
   | "crc64x" :: rest => hashSegOp HashSpec.crc64 rest
